@@ -79,33 +79,33 @@ CLAIMS = {
             "DESIGN.md section 4 C20; docs/C20_NOTES.md"),
     "C10": ("model_checking", "GenRun,MC_GenRun,Trace_GenRun",
             "TLC model checking of GenRun.tla (stages x modes x fault points over an abstract file system); every behaviour replayed as a real generation under an audit hook with injected faults; TLA+ trace monitor",
-            "GenRun.tla is checked exhaustively (1248 behaviours: existing tree x force x core layout x cwd x post-processing x fault at each of 12 stages) and each behaviour is replayed with the real generator in a sentinel-seeded sandbox; Trace_GenRun.tla judges every recorded file-system operation and the before/after snapshot against Untouched / Contained / FaultsSurface",
+            "GenRun.tla is checked exhaustively (1248 behaviours: existing tree x force x core layout x cwd x post-processing x fault at each of 12 stages) and each behaviour is replayed with the real generator in a sentinel-seeded sandbox; Trace_GenRun.tla judges every recorded file-system operation and the before/after snapshot against Untouched / Contained / FaultsSurface and the outcome half of the statement (on a match it succeeds, on a difference it raises); concrete variants per behaviour: which file is missing / edited, missing package markers, prefix-related package names, temporary directory below a dot-directory, one large document",
             "trusts TLC, sys.addaudithook + snapshots as complete observation of file-system effects, fault injection from the audit hook as model of 'failure part-way'; one document per run family",
             "DESIGN.md section 4 C10"),
     "C09": ("model_checking", "GenRun,MC_GenRun,Trace_GenRun,Trace_Det",
             "GenRun.tla behaviours generate;generate(no force) over mutated existing trees replayed with real generations; history-of-runs determinism monitor (Trace_Det.tla) over hash seeds / warm process / roots / clock",
-            "the non-force behaviours of GenRun.tla over existing trees {equal, edited, file missing, emptied, non-.py changed, stale extra} x core layouts x post-processing are replayed with real generations and judged (Idem, Complete); the Det invariant is judged over 5 environments for ~50 feature documents",
+            "the non-force behaviours of GenRun.tla over existing trees {equal, edited, file missing, emptied, non-.py changed, stale extra} x core layouts x post-processing x temporary-directory location are replayed with real generations and judged (Idem, Complete), the plain `equal tree` behaviour for every catalogue document; the Det invariant is judged over 5 environments for the catalogue documents",
             "trusts TLC, sha256 tree snapshots; determinism environments are hash seed, process warmth, output root, shifted time.time()",
             "DESIGN.md section 4 C09"),
     "C01": ("model_checking", "PyImport,Gen_Features,Trace_Load",
             "TLC explores every entry module of each emitted package's import graph (PyImport.tla, CPython partial-initialisation semantics); real compile + import in a generator-less interpreter; TLA+ monitor",
-            "documents = every feature of a 62-feature catalogue alone and in pairs (TLC Gen_Features) x layouts x naming strategies; every emitted file is compiled and every module imported with the generator blocked; PyImport.tla (TLC) explores all entry modules and each predicted failure is confirmed in a fresh interpreter; Trace_Load.tla judges syntax / import / export / entry-order clauses",
+            "documents = every feature of the catalogue in harness/features.py (about 80 features, incl. two-feature interactions on one operation, case-variant and numeric-looking names, size steps) alone and in pairs (TLC Gen_Features) x layouts (incl. prefix-related, repeated-component and core-is-client-tail package names) x naming strategies; every emitted file is compiled and every module imported with the generator blocked; PyImport.tla (TLC) explores all entry modules and each predicted failure is confirmed in a fresh interpreter; Trace_Load.tla judges syntax / import / export / entry-order clauses",
             "trusts TLC, ast-based fact extraction, the feature catalogue as the document family; PyImport is my model of CPython's import protocol (alarms only after real confirmation)",
             "DESIGN.md section 4 C01"),
     "C12": ("exploration", "Gen_Features,Trace_Load",
             "TLC-enumerated feature documents; every import statement of every emitted file judged by a TLA+ closure monitor (PyImport!Closed); runtime files compared with the shipped ones",
-            "same document family as C01; for every accepted document each import statement at any depth is checked for membership in stdlib+httpx+cattrs+package+core by Trace_Load.tla, all modules are imported with the generator blocked, and the 8 runtime files are compared byte-for-byte with the tree under test (with and without post-processing)",
+            "same document family as C01; for every accepted document each import statement at any depth is checked for membership in stdlib+httpx+cattrs+package+core by Trace_Load.tla, all modules are imported with the generator blocked, and the 8 runtime files are compared byte-for-byte with the tree under test (with and without post-processing, incl. one 600-schema document and a tampered shared core history)",
             "trusts sys.stdlib_module_names, ast import extraction, the sys.meta_path blocker as model of 'generator not installed'",
             "DESIGN.md section 4 C12"),
     "C08": ("model_checking", "CycleTracker,Trace_CycleTracker,Gen_Graphs,Gen_Chains",
             "TLC design model checking of the cycle tracker + state-graph edge replay on the real tracker + TLC trace validation of real parser runs",
-            "TLC checks the tracker design (rest state under LIFO use, depth accounting, limit) exhaustively for small name sets; every edge of the dumped state graphs is replayed on the real UnifiedCycleContext; traces of the real parser over every graph with <=2 edges (9 edge kinds, all orders, 3 name sets) and chains/nestings around three depth limits are validated by a total TLA+ monitor",
+            "TLC checks the tracker design (rest state under LIFO use, depth accounting, limit) exhaustively for small name sets; every edge of the dumped state graphs is replayed on the real UnifiedCycleContext; traces of the real parser over every graph with <=2 edges (9 edge kinds, all orders, 3 name sets, names that change under sanitisation) and chains / nestings around three depth limits and far beyond them (300, 420 levels) are validated by a total TLA+ monitor; a load that raises on a valid document is a verdict (C08.load_raised)",
             "trusts TLC, the wrappers around unified_enter_schema/unified_exit_schema as observation points, and the concretiser; bounds: 2-3 names, <=2-3 edges, depth limits {3,10,150}",
             "DESIGN.md section 4 C08"),
     "C02": ("model_checking", "Docs,Gen_Graphs,Trace_Fidelity",
             "TLC-enumerated schema graphs, real parser IR + imported dataclasses judged by a TLA+ reference resolver (Docs!ExpectedFields)",
-            "every schema graph over 2 names with <=2 edges of 8 kinds in both declaration orders, for plain, prefix-related and 'Item'-named name sets, is parsed (IR) and, for one family, generated and imported; a TLC monitor compares observed fields (key, required flag, structural kind) with the reference resolver",
-            "trusts TLC, the projection of annotations to structural kinds (harness/c02.py norm_kind) and class-name identification of models; alias-only schemas and documents with cyclic allOf are outside the judged family",
+            "every schema graph over 2 names with <=2 edges of 9+ kinds in both declaration orders, for plain, prefix-related and 'Item'-named name sets, is parsed (IR) and, for one family, generated and imported; further families: colliding property keys, two declared names deriving one class name (models recognised by a content marker), typeless / at-least-one-of object styles, long names with a long common prefix, an accumulation document under a small depth limit; a TLC monitor compares observed fields (key, required flag, structural kind) with the reference resolver; SchemaParse.tla is run on the same documents and compared call by call (incl. AnswersOwnNode)",
+            "trusts TLC, the projection of annotations to structural kinds (harness/c02.py norm_kind) and identification of models by class name (by content marker in the name-collision family); alias-only schemas and documents with cyclic allOf are outside the judged family",
             "DESIGN.md section 4 C02"),
 }
 
